@@ -45,11 +45,15 @@ class C14(scen.PairProp):
                 "Wheatley.C14.applyOut_delay",
                 "Wheatley.C14.deliver_delay",
                 "Wheatley.C14.hold_up_never_forgotten",
-                "Wheatley.C14.hold_up_monotone_from_start"]
+                "Wheatley.C14.hold_up_monotone_from_start",
+                "Wheatley.C14.run_kept",
+                "Wheatley.C14.pollsLaw",
+                "Wheatley.C14.hold_up_is_whole_polls"]
     level_text = ("theorems (any ordered field): the waiting wrapper hands the inner rhythm 'now - delay' and wakes at "
                   "inner time + delay; delay never decreases and grows only by whole polls slept - system level: in every "
                   "state of every run on ANY events (Look To, its sleeping handler, settings, Stop Touch included) the "
-                  "accumulated delay is at least what it was, and no handler changes it; the regression is "
+                  "accumulated delay is at least what it was, and is what it was plus a whole number of 10 ms polls, and "
+                  "no handler changes it; the regression is "
                   "translation-equivariant (moving every time by c moves the start by c and leaves the interval), so "
                   "positions in blows are origin-independent. correspondence: pairs of sessions (punctual band vs the "
                   "same band with one strike D late, D from 1 ms to 40 s, at any row/place; same session with the "
